@@ -115,6 +115,14 @@ def run(ctx):
             T.fail("spec", {"first": str(first), "then": str(second)}, "the second connection is fully verified", str(got),
                    {"site": "_ssl_socket", "cls": "relaxation-leaks-across-connections"},
                    what="a relaxed option of an earlier connection weakened a later connection that did not ask for it")
+    # an option that is present but None (a wrapper forwarding cfg.get(...)): refused, or treated as not given -- never a reason to stop verifying
+    # (check_hostname=None is an explicit falsy value of a boolean option and counts as False; not judged here)
+    for opt in ({"cert_reqs": None}, {"ca_certs": None}, {"ca_cert_path": None}, {"cert_reqs": None, "ca_certs": "/x/ca.pem"}):
+        got = plan_of(opt)
+        T.case(("none-valued", str(opt)), bucket="direct", sample={"sslopt": str(opt), "plan": got})
+        if "error" not in got and (got.get("verify_mode") != int(ssl.CERT_REQUIRED) or got.get("check_hostname") is not True):
+            T.fail("spec", {"sslopt": str(opt)}, "an error, or a fully verified connection", str(got), {"site": "_ssl_socket", "cls": "none-valued-option-relaxes"},
+                   what="an sslopt entry whose value is None switched verification off")
     # one sslopt dict shared by connections to DIFFERENT hosts (a redirect, a reused WebSocket, an application-wide dict): each peer is
     # checked against its own name, and the caller's dict is left as it was
     for shared0 in ({}, {"ca_certs": "/x/ca.pem"}, {"check_hostname": True}):
